@@ -148,7 +148,7 @@ static void mutate(u8* b, size_t n)
  * Segments: a segment is a run of blocks decoded contiguously in one exact-size heap buffer; a new segment starts somewhere else
  * (another buffer) and the previous segment stays in place, unmodified: what lz4.h requires.  History visible to block k (and used by the
  * generator for its offsets) = last 64 KB of [previous segment ++ current segment so far].  Empty blocks (the single byte 0x00) included. */
-static u64 n_chain_blocks, n_chain_empty, n_chain_switch_on_empty;
+static u64 n_chain_blocks, n_chain_empty, n_chain_switch_on_empty, n_chain_fast;
 static void chain_case(int thorough)
 {
     enum { MAXB = 40 };
@@ -192,6 +192,25 @@ static void chain_case(int thorough)
     }
     if (sawEmptySwitch) n_chain_switch_on_empty++;
     for (k = 0; k < nseg; k++) free(segBuf[k]);
+    {   /* the same chain through the deprecated LZ4_decompress_fast_continue (valid blocks only: it trusts its input), fresh segment buffers */
+        LZ4_streamDecode_t sf; int okSoFar = 1;
+        for (k = 0; k < nseg; k++) { segBuf[k] = xalloc(segSize[k]); segFill[k] = 0; }
+        LZ4_setStreamDecode(&sf, NULL, 0);
+        for (k = 0; k < nb && okSoFar; k++) {
+            int sg = segOf[k]; u8* dst = segBuf[sg] + segFill[sg]; int cap = (int)g[k].contentSize; int ret; u8* src = xalloc(g[k].blkSize + 8);
+            memcpy(src, g[k].blk, g[k].blkSize);
+            rec_begin(&r, OP_DECODE); rec_int(&r, M_FAST); rec_int(&r, LZ4_FAST_DEC_LOOP); rec_int(&r, 9); rec_int(&r, cap); rec_int(&r, cap); rec_int(&r, 0);
+            rec_bytes(&r, src, g[k].blkSize); rec_int(&r, 0); rec_int(&r, 0); rec_bytes(&r, NULL, 0); rec_int(&r, 4); rec_int(&r, (long long)g[k].contentSize); rec_int(&r, (long long)g[k].blkSize);
+            cur_set(&r);
+            ret = LZ4_decompress_fast_continue(&sf, (const char*)src, (char*)dst, cap);
+            n_calls++; n_chain_fast++; if (ret >= 0) n_ok++; else n_err++;
+            if (ret != (int)g[k].blkSize) { c_fail(&r, "valid_block_rejected"); okSoFar = 0; }
+            else if (cap && memcmp(dst, g[k].content, (size_t)cap) != 0) { c_fail(&r, "fast_decoder_mismatch"); okSoFar = 0; }
+            cur_clear();
+            segFill[sg] += g[k].contentSize; free(src);
+        }
+        for (k = 0; k < nseg; k++) free(segBuf[k]);
+    }
     for (k = 0; k < nb; k++) free_block(&g[k]);
     free(hist); free(prev); free(cur);
 }
@@ -267,7 +286,7 @@ int main(int argc, char** argv)
     } else { fprintf(stderr, "unknown mode %s\n", mode); return 2; }
 
     harness_done();
-    stat_u("calls", n_calls); stat_u("reused_streamDecode_sessions", n_reused_sd); stat_u("chain_blocks", n_chain_blocks); stat_u("chain_empty_blocks", n_chain_empty); stat_u("chains_switching_on_empty_block", n_chain_switch_on_empty); stat_u("decoder_ok", n_ok); stat_u("decoder_error", n_err); stat_u("records", g_nrecords); stat_u("fast_dec_loop", LZ4_FAST_DEC_LOOP);
+    stat_u("calls", n_calls); stat_u("reused_streamDecode_sessions", n_reused_sd); stat_u("chain_blocks", n_chain_blocks); stat_u("chain_empty_blocks", n_chain_empty); stat_u("chain_blocks_through_fast_continue", n_chain_fast); stat_u("chains_switching_on_empty_block", n_chain_switch_on_empty); stat_u("decoder_ok", n_ok); stat_u("decoder_error", n_err); stat_u("records", g_nrecords); stat_u("fast_dec_loop", LZ4_FAST_DEC_LOOP);
     for (i = 0; i < M_NB; i++) if (mode_hist[i]) { char k[64]; snprintf(k, sizeof k, "mode.%s", m_names[i]); stat_u(k, mode_hist[i]); }
     for (i = 0; i < 4; i++) if (dict_hist[i]) { char k[64]; snprintf(k, sizeof k, "dictclass.%d", i); stat_u(k, dict_hist[i]); }
     stat_u("cfails", (u64)g_cfails);
